@@ -331,7 +331,7 @@ def cos(x: Interval):
 
 def cos_vector(x: Interval):  # vectorised version of cos()
     if x.unsized:
-        return sin(x)
+        return cos(x)
 
     twopi = 2 * numpy_pi
 
@@ -353,8 +353,6 @@ def cos_vector(x: Interval):  # vectorised version of cos()
     case1a = (yh < yl) & contain(domain1, yl) & contain(domain1, yh)
     case1b = (yh < yl) & contain(domain2, yl) & contain(domain2, yh)
     case1 = case0 | case1a | case1b
-    a[case1] = -1
-    b[case1] = 1
     # [cos_l, cos_h]
     # case2 = (yl<=yh) & contain(domain2,yl) & contain(domain2,yh)
     # a[case2] = cos_l[case2]
@@ -371,6 +369,9 @@ def cos_vector(x: Interval):  # vectorised version of cos()
     case5 = (yl <= yh) & contain(domain1, yl) & contain(domain1, yh)
     a[case5] = cos_h[case5]
     b[case5] = cos_l[case5]
+    # [-1,1] last: an element at least one period wide must not be overwritten by the cases above
+    a[case1] = -1
+    b[case1] = 1
     return Interval(lo=a, hi=b)
 
 
